@@ -103,7 +103,10 @@ SubframeBits(sub, ch0, bs, bps0) ==
         ord == IF ty \in {"fixed", "lpc"} THEN sub.order ELSE 0
         coef == IF ty = "fixed" THEN FixedC[ord + 1] ELSE IF ty = "lpc" THEN sub.coefs ELSE <<>>
         shift == IF ty = "lpc" THEN sub.shift ELSE 0
-        rr == IF ty \in {"fixed", "lpc"} /\ ord <= bs THEN Residuals(s, coef, shift, bps, Has(ov, "minneg")) ELSE [ok |-> ty \in {"constant", "verbatim"}, res |-> <<>>]
+        \* "res" override: arbitrary residuals unrelated to the target samples (prediction + residual may then leave 32 bits)
+        rr == IF ty \in {"fixed", "lpc"} /\ ord <= bs /\ Has(ov, "res")
+              THEN [ok |-> TRUE, res |-> [i \in 1..(bs - ord) |-> ov.res[((i - 1) % Len(ov.res)) + 1]]]
+              ELSE IF ty \in {"fixed", "lpc"} /\ ord <= bs THEN Residuals(s, coef, shift, bps, Has(ov, "minneg")) ELSE [ok |-> ty \in {"constant", "verbatim"}, res |-> <<>>]
         method == Get(sub, "method", 0)
         po == Get(sub, "po", 0)
         params == Get(sub, "params", << <<"esc", 31>> >>)
